@@ -1075,7 +1075,11 @@ impl RefI for Kaufman {
 				x
 			}
 		} else {
-			let sd = self.sd.as_mut().unwrap().next_f(if value.is_undefined() { self.y.v } else { value.v }, f64::NAN);
+			// the deviation filter watches the indicator's own output: feed the reference deviation with the implementation's value
+			// (it is inside the reference interval, or value0 is reported anyway). Feeding the interval's midpoint instead polluted
+			// the filter window for `filter_period` steps after a regime change, during which the value interval is very wide.
+			let fed = got.first().copied().filter(|g| g.is_finite()).unwrap_or(if value.is_undefined() { self.y.v } else { value.v });
+			let sd = self.sd.as_mut().unwrap().next_f(fed, f64::NAN);
 			let filter = if value.is_undefined() { Ap::undefined() } else { sd.widen(value.e * 2.0) * self.k };
 			match x {
 				Sig::Full(0) => match self.latch.clone() {
